@@ -31,6 +31,23 @@ def check_rows(rows_):
     return None, n_seq
 
 
+E = '\x1b'
+
+
+def balanced_escapes(rng, text):
+    """Wrap parts of a line in balanced SGR and OSC 8 sequences (as a tool upstream of delta may emit them)."""
+    if len(text) < 4:
+        return text
+    a = rng.randrange(0, len(text) - 2)
+    b = rng.randrange(a + 1, len(text))
+    r = rng.random()
+    if r < 0.4:
+        return text[:a] + E + ']8;;https://example.com/x' + rng.choice([E + '\\', '\x07']) + text[a:b] + E + ']8;;' + rng.choice([E + '\\', '\x07']) + text[b:]
+    if r < 0.7:
+        return text[:a] + E + '[' + rng.choice(['31', '1;32', '38;5;208', '4']) + 'm' + E + ']8;;file:///tmp/f' + E + '\\' + text[a:b] + E + ']8;;' + E + '\\' + E + '[m' + text[b:]
+    return text[:a] + E + '[' + rng.choice(['33', '7', '38;2;1;2;3']) + 'm' + text[a:b] + E + '[0m' + text[b:]
+
+
 def run_item(item):
     _, seed = item
     rng = engine.item_rng(seed)
@@ -38,6 +55,19 @@ def run_item(item):
     opts = dict(case['opts'])
     lines = case['lines']
     colored = False
+    if rng.random() < 0.15:
+        # input that carries its own balanced escape sequences, long lines, small max-line-length
+        lines = []
+        for _ in range(rng.randint(2, 8)):
+            t = ' '.join(gen.rand_text(rng, 40, allow_empty=False, tabs_ok=False) for _ in range(rng.randint(1, 4)))
+            lines.append(balanced_escapes(rng, 'x' + t))
+        case = dict(case)
+        case['kind'] = 'text-with-escapes'
+        case['view'] = 'passthrough'
+        case['meta'] = {'classes': ['escapes-in-input']}
+        opts = {'--paging': 'never', '--max-line-length': rng.choice([10, 20, 40, 80])}
+    if case['view'] == 'sbs' and rng.random() < 0.25:
+        opts['--width'] = rng.choice([8, 10, 12, 16, 20, 25, 31])
     if case['kind'] in ('diff', 'log') and rng.random() < 0.3:
         lines = corpus.git_colorize(lines, rng.choice(['default', 'ws']))
         colored = True
